@@ -24,15 +24,17 @@ pub struct RawCfg {
     /// layer sets as real technologies have them: distinct layers sharing a GDSII layer number, purposes carried by several
     /// numbers, and numbers re-assigned from one purpose to another (used where only determinism is judged)
     pub hostile_layers: bool,
+    /// only the first of those: distinct layers sharing a GDSII layer number, every purpose with exactly one number
+    pub shared_layer_numbers: bool,
     /// layout / abstract views whose own name differs from the cell's, and zero-width paths (legal, rare)
     pub odd_views: bool,
 }
 impl RawCfg {
     pub fn gds() -> Self {
-        RawCfg { units: vec![Units::Micro, Units::Nano, Units::Angstrom, Units::Pico], abstracts: false, annotations: false, nets: true, general_polygons: true, paths: true, max_cells: 6, max_elems: 8, right_angles_only: true, inst_names: false, hostile_layers: false, odd_views: false }
+        RawCfg { units: vec![Units::Micro, Units::Nano, Units::Angstrom, Units::Pico], abstracts: false, annotations: false, nets: true, general_polygons: true, paths: true, max_cells: 6, max_elems: 8, right_angles_only: true, inst_names: false, hostile_layers: false, shared_layer_numbers: false, odd_views: false }
     }
     pub fn proto() -> Self {
-        RawCfg { units: vec![Units::Micro, Units::Nano, Units::Angstrom], abstracts: true, annotations: true, nets: true, general_polygons: true, paths: true, max_cells: 6, max_elems: 8, right_angles_only: true, inst_names: true, hostile_layers: false, odd_views: true }
+        RawCfg { units: vec![Units::Micro, Units::Nano, Units::Angstrom], abstracts: true, annotations: true, nets: true, general_polygons: true, paths: true, max_cells: 6, max_elems: 8, right_angles_only: true, inst_names: true, hostile_layers: false, shared_layer_numbers: false, odd_views: true }
     }
 }
 
@@ -56,17 +58,18 @@ impl LayerDefs {
 }
 
 pub fn rand_layers(rng: &mut Rng) -> LayerDefs {
-    rand_layers_cfg(rng, false)
+    rand_layers_cfg(rng, false, false)
 }
-pub fn rand_layers_cfg(rng: &mut Rng, hostile: bool) -> LayerDefs {
+pub fn rand_layers_cfg(rng: &mut Rng, hostile: bool, shared_only: bool) -> LayerDefs {
+    let share = hostile || shared_only;
     let mut layers = Layers::default();
     let mut table = Vec::new();
     let mut registered = Vec::new();
-    let n = if hostile { 2 + rng.usize(4) } else { 1 + rng.usize(4) };
+    let n = if share { 2 + rng.usize(4) } else { 1 + rng.usize(4) };
     let mut nums: Vec<i16> = Vec::new();
     while nums.len() < n {
         let k = rng.range(0, 200) as i16;
-        if hostile && !nums.is_empty() && rng.chance(2, 3) {
+        if share && !nums.is_empty() && rng.chance(2, 3) {
             let again = *rng.pick(&nums);
             nums.push(again); // another layer on the same GDSII layer number (as met1 / via share 68 in the crate's own test set)
         } else if !nums.contains(&k) {
@@ -291,7 +294,7 @@ pub struct GenRaw {
 }
 
 pub fn rand_raw_lib(rng: &mut Rng, cfg: &RawCfg) -> GenRaw {
-    let defs = rand_layers_cfg(rng, cfg.hostile_layers);
+    let defs = rand_layers_cfg(rng, cfg.hostile_layers, cfg.shared_layer_numbers);
     let ncells = 1 + rng.usize(cfg.max_cells);
     let mut cells: Vec<Ptr<Cell>> = Vec::new();
     let mut deps = Vec::new();
